@@ -253,6 +253,41 @@ def epics_model_diff(rng, n, drv, res):
             elif e[0] == "set" and (e[1] != owner or e[3] != owner):
                 res.violate(V("adapter-influenced-by-unconnected-part", f"record {e[5]} of adapter {e[3:5]} set by adapter {e[1:3]} during the update of {owner}", site="EpicsAdapter.after_update"), {"epics_model": c})
 
+def judge_epics_worker(spec, names, k, res):
+    import json as _json
+    import subprocess
+    worker = os.path.join(os.path.dirname(os.path.dirname(os.path.abspath(__file__))), "c10_epics_worker.py")
+    p_ = subprocess.run(["/venv/bin/python", worker], input=_json.dumps(spec), capture_output=True, text=True, timeout=300)
+    try:
+        out = _json.loads(p_.stdout.strip().splitlines()[-1])
+    except Exception:
+        out = {"ok": False, "error": (p_.stdout + p_.stderr)[-300:]}
+    case = {"epics_io": spec}
+    res.case(f"epics-io:{k}", nontrivial=True)
+    res.count("epics-io-worker")
+    if not out.get("ok"):
+        res.violate(V("epics-io-worker-failed", out.get("error", "")[-300:], site="EpicsIo"), case)
+        return
+    for run_name in ("base", "ext", "divided"):
+        starts = out["out"].get(run_name, {}).get("__ioc_starts__")
+        if starts != 1:
+            res.violate(V("epics-records-not-served", f"{run_name} run ({'only alpha hosted here, ' + str(names[1:]) + ' elsewhere' if run_name == 'divided' else spec['runs'].get(run_name)}): "
+                          f"the process-wide IOC was started {starts} times once the EPICS adapters hosted here were ready (expected once): their records are not served",
+                          site="EpicsIo", extension="epics-io", run=run_name), case)
+    dv = out["out"].get("divided", {})
+    if dv.get("hosted") != ["alpha"] or dv.get("records") != {"DIV_ALPHA:VALUE": 0.0} and list((dv.get("records") or {})) != ["DIV_ALPHA:VALUE"]:
+        res.violate(V("adapter-influenced-by-unconnected-part", f"divided run: components built here {dv.get('hosted')}, records of alpha {dv.get('records')}", site="build_simulation", extension="epics-io"), case)
+    base, ext = out["out"]["base"]["alpha"], out["out"]["ext"]["alpha"]
+    if base != ext:
+        res.violate(V("adapter-influenced-by-unconnected-part", f"EPICS records of 'alpha' alone {base} vs with {names[1:]} present {ext}", site="EpicsIo.setup", extension="epics-io"), case)
+    for n in names:
+        got = out["out"]["ext"][n]
+        if got.get("interrupt") != [n]:
+            res.violate(V("adapter-interrupt-misrouted", f"the interrupt of the EPICS adapter of {n} (set by EpicsIo.setup) produced {got.get('interrupt')} instead of one Interrupt of {n}", site="EpicsIo.setup", extension="epics-io"), case)
+        if list(got["records"]) != [f"{n.upper()}:VALUE"] or got["notified"] != 1:
+            res.violate(V("adapter-influenced-by-unconnected-part", f"EPICS adapter of {n}: records {got['records']}, notified {got['notified']}", site="EpicsIo.setup", extension="epics-io"), case)
+
+
 def system_adapter_scenarios():
     P = 4_000_000
     inner = lambda: [dev("in1", {"i": ["external", "x"]}), dev("q")]
@@ -368,27 +403,7 @@ def run(tier, seed, drv):
     worker = os.path.join(os.path.dirname(os.path.dirname(os.path.abspath(__file__))), "c10_epics_worker.py")
     for k, (names, db) in enumerate([(["alpha", "beta"], {"alpha": True, "beta": True}), (["alpha", "beta", "gamma"], {"alpha": False, "beta": True, "gamma": True}),
                                      (["alpha", "beta"], {"alpha": True, "beta": False})][: (2 if tier == "quick" else 3)]):
-        spec = {"runs": {"base": ["alpha"], "ext": names}, "db": db}
-        p_ = subprocess.run(["/venv/bin/python", worker], input=_json.dumps(spec), capture_output=True, text=True, timeout=300)
-        try:
-            out = _json.loads(p_.stdout.strip().splitlines()[-1])
-        except Exception:
-            out = {"ok": False, "error": (p_.stdout + p_.stderr)[-300:]}
-        case = {"epics_io": spec}
-        res.case(f"epics-io:{k}", nontrivial=True)
-        res.count("epics-io-worker")
-        if not out.get("ok"):
-            res.violate(V("epics-io-worker-failed", out.get("error", "")[-300:], site="EpicsIo"), case)
-            continue
-        base, ext = out["out"]["base"]["alpha"], out["out"]["ext"]["alpha"]
-        if base != ext:
-            res.violate(V("adapter-influenced-by-unconnected-part", f"EPICS records of 'alpha' alone {base} vs with {names[1:]} present {ext}", site="EpicsIo.setup", extension="epics-io"), case)
-        for n in names:
-            got = out["out"]["ext"][n]
-            if got.get("interrupt") != [n]:
-                res.violate(V("adapter-interrupt-misrouted", f"the interrupt of the EPICS adapter of {n} (set by EpicsIo.setup) produced {got.get('interrupt')} instead of one Interrupt of {n}", site="EpicsIo.setup", extension="epics-io"), case)
-            if list(got["records"]) != [f"{n.upper()}:VALUE"] or got["notified"] != 1:
-                res.violate(V("adapter-influenced-by-unconnected-part", f"EPICS adapter of {n}: records {got['records']}, notified {got['notified']}", site="EpicsIo.setup", extension="epics-io"), case)
+        judge_epics_worker({"runs": {"base": ["alpha"], "ext": names}, "db": db, "divided": True}, names, k, res)
     res.rule = ("bases: flat pair with EPICS adapters, source->system->sink with an EPICS sink, generated nestings; each extended by: a periodic device, a "
                 "chain, a sibling system, a depth-2 system, a device with the shipped EpicsAdapter, a device with a CommandAdapter subclass, a "
                 "disconnected device inside one of the base's systems (periodic, or quiet and driven by interrupts), devices whose names differ from a base "
@@ -401,6 +416,9 @@ def run(tier, seed, drv):
 def replay(payload, drv):
     c = payload["case"]
     res = Result()
+    if c.get("epics_io"):
+        judge_epics_worker(c["epics_io"], c["epics_io"]["runs"]["ext"], 0, res)
+        return {"violations": [v["record"] for v in res.violations], "divergences": []}
     if c.get("system_adapter"):
         system_adapter_part(res, drv, c.get("held_seed", 0))
         return {"violations": [v["record"] for v in res.violations], "divergences": res.divergences[:3]}
